@@ -244,7 +244,7 @@ func opPy(r *hx.Run, o pyOut, path string, file []byte, nontrivial bool) {
 }
 
 func runPython(r *hx.Run, rnd *hx.Rand, cfg hx.Config) {
-	n := cfg.N(120, 2000)
+	n := cfg.N(120, 4000)
 	for i := 0; i < n && !r.Stop(); i++ {
 		k := rnd.Intn(7)
 		ps, public, class := genPyPkgs(rnd, k)
